@@ -8,6 +8,8 @@ package harness
 import (
 	"fmt"
 	mrandv1 "math/rand"
+	"os"
+	"runtime"
 	"sort"
 	"strings"
 	"sync"
@@ -191,6 +193,16 @@ func Execute(t *testing.T, spec RunSpec) (res RunResult) {
 	// gorilla/websocket draws its client mask keys from the global math/rand
 	// source (needs GODEBUG=randseednop=0, set in worker_test.go)
 	mrandv1.Seed(int64(spec.Seed))
+	// real-time watchdog (outside the bubble): a run that makes no progress for
+	// 300 s of wall time is a harness defect (e.g. a non-durable block inside a
+	// dependency); dump all stacks and give up - never reported as a violation
+	wd := time.AfterFunc(300*time.Second, func() {
+		buf := make([]byte, 1<<20)
+		n := runtime.Stack(buf, true)
+		fmt.Fprintf(os.Stderr, "WATCHDOG: run prop=%s seed=%d variant=%q did not finish within 300 s of wall time\n%s\n", spec.Prop, spec.Seed, spec.Variant, buf[:n])
+		os.Exit(3)
+	})
+	defer wd.Stop()
 	func() {
 		defer func() {
 			if r := recover(); r != nil {
